@@ -285,7 +285,11 @@ class InputValidation:
                 continue
 
             if "one_of" in validations:
-                one_of_group = validations.pop("one_of")
+                # leave the shared validations untouched: the group is checked below
+                one_of_group = validations["one_of"]
+                validations = {
+                    key: value for key, value in validations.items() if key != "one_of"
+                }
                 val = {param: data[param] is not None}
                 if one_of_group in one_of_validations:
                     one_of_validations[one_of_group].update(val)
